@@ -229,6 +229,28 @@ impl<'g, 'r> ProgGen<'g, 'r> {
                 init: None,
             });
         }
+        if self.cfg.hw {
+            // dedicated objects touched only by load/store/strobe statements: every access to them
+            // in the emulator's trace is an explicit one
+            for k in 1..=3 {
+                let mut d = VarDecl::scalar(&format!("hv{}", k), Ty::U8);
+                if k == 3 {
+                    d.mem = MemQual::Ramchip;
+                }
+                self.globals.push(d);
+            }
+            for k in 1..=2 {
+                let addr = if k == 1 { 0xE8 } else { 0xF80 };
+                self.globals.push(VarDecl {
+                    name: format!("HR{}", k),
+                    ty: Ty::U8,
+                    kind: VarKind::ConstPtr(addr),
+                    mem: MemQual::Default,
+                    explicit_sign: false,
+                    init: None,
+                });
+            }
+        }
         if self.cfg.pointers {
             if self.g.chance(1, 2) {
                 let name = self.fresh("pt");
@@ -283,7 +305,7 @@ impl<'g, 'r> ProgGen<'g, 'r> {
             shadow.insert(p.name.clone());
         }
         for gl in &self.globals {
-            if shadow.contains(&gl.name) {
+            if shadow.contains(&gl.name) || gl.name.starts_with("hv") {
                 continue;
             }
             match gl.kind {
@@ -330,7 +352,11 @@ impl<'g, 'r> ProgGen<'g, 'r> {
         self.globals.iter().filter(|g| g.ty == Ty::Ptr && g.kind == VarKind::Scalar).map(|g| g.name.clone()).collect()
     }
     fn const_ptrs(&self) -> Vec<String> {
-        self.globals.iter().filter(|g| matches!(g.kind, VarKind::ConstPtr(_))).map(|g| g.name.clone()).collect()
+        self.globals
+            .iter()
+            .filter(|g| matches!(g.kind, VarKind::ConstPtr(_)) && !g.name.starts_with("HR"))
+            .map(|g| g.name.clone())
+            .collect()
     }
     fn is_split(&self, name: &str) -> bool {
         self.globals.iter().any(|g| g.name == name && matches!(g.mem, MemQual::Superchip | MemQual::Bank(_)))
@@ -490,7 +516,7 @@ impl<'g, 'r> ProgGen<'g, 'r> {
                 if self.g.chance(1, 2) {
                     Expr::SizeofType(*self.g.pick(&[Ty::U8, Ty::I16]))
                 } else {
-                    let names: Vec<String> = self.globals.iter().filter(|g| g.ty != Ty::Ptr && !matches!(g.kind, VarKind::ConstPtr(_) | VarKind::ConstScalar(_))).map(|g| g.name.clone()).collect();
+                    let names: Vec<String> = self.globals.iter().filter(|g| g.ty != Ty::Ptr && !g.name.starts_with("hv") && !matches!(g.kind, VarKind::ConstPtr(_) | VarKind::ConstScalar(_))).map(|g| g.name.clone()).collect();
                     if names.is_empty() {
                         self.literal(want)
                     } else {
@@ -787,6 +813,9 @@ impl<'g, 'r> ProgGen<'g, 'r> {
         if self.cfg.excl.has("signed_rel") && t.signed() {
             ops.truncate(2);
         }
+        if self.cfg.excl.has("le_gt_16bit") && !is8(t) {
+            ops.retain(|o| !matches!(o, BinOp::Le | BinOp::Gt));
+        }
         let op = *self.g.pick(&ops);
         let save = fc.dest16;
         fc.dest16 = false;
@@ -932,7 +961,17 @@ impl<'g, 'r> ProgGen<'g, 'r> {
         let depth = self.g.below(self.cfg.max_expr_depth as usize + 1) as u32;
         match self.g.weighted(&[60, 25, 15]) {
             0 => {
-                let e = self.rvalue(fc, ty, depth);
+                let mut e = self.rvalue(fc, ty, depth);
+                // `v = v` is pointless (and a known finding): take another operand
+                for _ in 0..4 {
+                    match (&lv, &e) {
+                        (LValue::Var(a), Expr::Lv(LValue::Var(b))) if a == b => e = self.rvalue(fc, ty, depth),
+                        _ => break,
+                    }
+                }
+                if matches!((&lv, &e), (LValue::Var(a), Expr::Lv(LValue::Var(b))) if a == b) {
+                    e = self.literal(ty);
+                }
                 Stmt::Expr(Expr::Assign(None, lv, Box::new(e)))
             }
             1 => {
@@ -1051,7 +1090,10 @@ impl<'g, 'r> ProgGen<'g, 'r> {
                 if !has_init {
                     // make sure it is written before any read
                     Self::new_expr_ctx(fc);
-                    let e = self.leaf(fc, ty);
+                    let mut e = self.leaf(fc, ty);
+                    if crate::excl::mentions(&e, &name) {
+                        e = self.literal(ty);
+                    }
                     out.push(Stmt::Expr(Expr::Assign(None, LValue::Var(name), Box::new(e))));
                 }
             }
@@ -1205,7 +1247,7 @@ impl<'g, 'r> ProgGen<'g, 'r> {
     fn asm_stmt(&mut self, fc: &mut FnCtx) -> Stmt {
         self.label("inline-asm");
         let vars: Vec<String> =
-            self.globals.iter().filter(|g| g.kind == VarKind::Scalar && is8(g.ty) && g.mem == MemQual::Default && !fc.protected.contains(&g.name)).map(|g| g.name.clone()).collect();
+            self.globals.iter().filter(|g| g.kind == VarKind::Scalar && is8(g.ty) && g.mem == MemQual::Default && !fc.protected.contains(&g.name) && !g.name.starts_with("hv")).map(|g| g.name.clone()).collect();
         let prot_x = fc.protected.contains("X");
         let prot_y = fc.protected.contains("Y");
         let mut menu: Vec<(String, u32)> = vec![("NOP".into(), 1)];
@@ -1233,38 +1275,100 @@ impl<'g, 'r> ProgGen<'g, 'r> {
     }
 
     fn hw_stmt(&mut self, fc: &mut FnCtx) -> Vec<Stmt> {
-        let vars: Vec<String> = self
+        let ord: Vec<String> = self
             .globals
             .iter()
-            .filter(|g| g.kind == VarKind::Scalar && is8(g.ty) && !fc.protected.contains(&g.name))
+            .filter(|g| g.kind == VarKind::Scalar && is8(g.ty) && !fc.protected.contains(&g.name) && !g.name.starts_with("hv"))
             .map(|g| g.name.clone())
             .collect();
-        let regs = self.const_ptrs();
-        match self.g.below(6) {
-            0 | 1 => {
-                self.label("csleep");
-                vec![Stmt::Csleep(self.g.range(2, 40) as i32)]
+        let hv = |g: &mut G| format!("hv{}", 1 + g.below(3));
+        let hr = |g: &mut G| format!("HR{}", 1 + g.below(2));
+        let sleep = |g: &mut G| -> i32 {
+            if g.chance(9, 10) {
+                g.range(2, 10) as i32
+            } else {
+                *g.pick(&[0, 1, 11, 12, 40])
             }
-            2 if !vars.is_empty() => {
-                self.label("load-store");
-                let a = self.g.pick(&vars).clone();
-                let b = self.g.pick(&vars).clone();
+        };
+        match self.g.below(12) {
+            0..=2 => {
+                self.label("csleep");
+                vec![Stmt::Csleep(sleep(self.g))]
+            }
+            3 => {
+                self.label("load-store-pair");
+                let a = hv(self.g);
+                let b = hv(self.g);
                 vec![Stmt::Load(Expr::var(&a)), Stmt::Store(LValue::Var(b))]
             }
-            3 if !regs.is_empty() => {
-                self.label("strobe");
-                let r = self.g.pick(&regs).clone();
-                vec![Stmt::Strobe(LValue::Deref(r))]
+            4 => {
+                // same operand: the pattern the peephole rules "LDA x / STA x" look for
+                self.label("load-store-same-operand");
+                let a = hv(self.g);
+                vec![Stmt::Load(Expr::var(&a)), Stmt::Store(LValue::Var(a))]
             }
-            4 if !regs.is_empty() && !vars.is_empty() => {
-                self.label("load-reg");
-                let r = self.g.pick(&regs).clone();
-                let b = self.g.pick(&vars).clone();
+            5 => {
+                self.label("strobe");
+                let r = hr(self.g);
+                let mut v = vec![Stmt::Strobe(LValue::Var(r.clone()))];
+                if self.g.chance(1, 3) {
+                    v.push(Stmt::Strobe(LValue::Var(r)));
+                }
+                v
+            }
+            6 => {
+                self.label("load-register-then-strobe");
+                let r = hr(self.g);
+                vec![Stmt::Load(Expr::Lv(LValue::Deref(r.clone()))), Stmt::Strobe(LValue::Var(r))]
+            }
+            7 => {
+                self.label("load-register-store");
+                let r = hr(self.g);
+                let b = hv(self.g);
                 vec![Stmt::Load(Expr::Lv(LValue::Deref(r))), Stmt::Store(LValue::Var(b))]
             }
+            8 if !ord.is_empty() => {
+                // explicit access next to an ordinary access of the same ordinary variable
+                self.label("explicit-next-to-ordinary");
+                let v = self.g.pick(&ord).clone();
+                let b = hv(self.g);
+                let k = self.g.range(0, 9) as i32;
+                vec![
+                    Stmt::Expr(Expr::assign(LValue::Var(v.clone()), Expr::lit(k))),
+                    Stmt::Load(Expr::var(&v)),
+                    Stmt::Store(LValue::Var(b)),
+                ]
+            }
+            9 => {
+                self.label("csleep-between-assignment-and-test");
+                let reg = if self.g.chance(1, 2) { "X" } else { "Y" };
+                if fc.protected.contains(reg) || ord.is_empty() {
+                    return vec![Stmt::Csleep(sleep(self.g))];
+                }
+                let v = self.g.pick(&ord).clone();
+                let t = self.g.pick(&ord).clone();
+                vec![
+                    Stmt::Expr(Expr::assign(LValue::Var(reg.to_string()), Expr::var(&v))),
+                    Stmt::Csleep(self.g.range(2, 10) as i32),
+                    Stmt::If(
+                        if self.g.chance(1, 2) { Expr::var(reg) } else { Expr::bin(BinOp::Eq, Expr::var(reg), Expr::lit(0)) },
+                        Box::new(Stmt::Expr(Expr::assign(LValue::Var(t), Expr::lit(self.g.range(0, 200) as i32)))),
+                        None,
+                    ),
+                ]
+            }
+            10 => {
+                self.label("two-loads");
+                let a = hv(self.g);
+                let b = hv(self.g);
+                let c = hv(self.g);
+                vec![Stmt::Load(Expr::var(&a)), Stmt::Load(Expr::var(&b)), Stmt::Store(LValue::Var(c))]
+            }
             _ => {
-                self.label("csleep");
-                vec![Stmt::Csleep(self.g.range(2, 12) as i32)]
+                self.label("store-to-register-address");
+                let r = hr(self.g);
+                let a = hv(self.g);
+                vec![Stmt::Load(Expr::var(&a)), Stmt::Store(LValue::Deref(r))]
             }
         }
     }
@@ -1382,7 +1486,11 @@ impl<'g, 'r> ProgGen<'g, 'r> {
             return vec![self.assign_stmt(fc)];
         }
         let a = self.g.pick(&v8).0.clone();
-        let b = self.g.pick(&v8).0.clone();
+        let mut b = self.g.pick(&v8).0.clone();
+        if b == a {
+            // two different variables (a self-assignment is a no-op the compiler mishandles)
+            b = v8.iter().map(|x| x.0.clone()).find(|n| *n != a).unwrap_or(b);
+        }
         let k = self.g.range(0, 5) as i32;
         let arrs = self.arrays(fc, Some(true), true);
         let px = fc.protected.contains("X");
@@ -1543,7 +1651,17 @@ impl<'g, 'r> ProgGen<'g, 'r> {
             self.g.below(self.cfg.max_helpers + 1)
         };
         for i in 0..nh {
-            let f = self.gen_func(i, false);
+            let mut f = self.gen_func(i, false);
+            // interrupt handlers: void, no parameters, never called, always in use
+            if self.cfg.interrupts && f.ret.is_none() && f.params.is_empty() && !f.inline && self.g.chance(1, 3) {
+                f.interrupt = true;
+                f.body.retain(|s| !matches!(s, Stmt::Return(_)));
+                self.label("interrupt-handler");
+            }
+            if self.cfg.protos && !f.inline && self.g.chance(1, 3) {
+                f.proto = true;
+                self.label("prototype");
+            }
             self.helpers.push(f);
         }
         let main = self.gen_func(nh, true);
